@@ -6,6 +6,7 @@
 -/
 import AgeModel.Extracted.CallOrder
 import Proofs.GoTieMisc
+import Proofs.GoTieEncrypt
 namespace AgeModel
 namespace Tie.C11
 
@@ -20,6 +21,26 @@ theorem encrypt_order_prefix : (Extracted.encryptOrder.map (·.1)).take 3 =
     label lists, TRANSLATED from the source on every run, is list equality. -/
 theorem slicesEqual_tie (a b : List Bytes) : Extracted.age_slicesEqual a b = .ok (decide (a = b)) :=
   GoTie.slicesEqual_tie a b
+
+
+/-! ## age.Encrypt itself (DESIGN.md §5.3): the label rule and "a refusal writes nothing"
+
+`age.Encrypt`, TRANSLATED from age.go on every run (recipient loop: `wrapWithLabels`,
+`sort.Strings`, the first recipient's list as the reference, `slicesEqual`, the failing wrap with its
+index; then `headerMAC`, `Header.Marshal(dst)`, the nonce, `dst.Write`), with the destination an
+explicit state, does what the model's `encryptInit` does: it refuses exactly the lists the model
+refuses, with the destination in the SAME state (untouched when the refusal comes from the labels or
+a wrap) — `Props.C11.encrypt_ok_iff_labels_equal`, `refusal_writes_nothing`, `write_implies_compatible`
+are about the source text. -/
+
+theorem encrypt_tie (P : Prims) {S : AgeModel.Stream.DstSpec} {ρ δ ω : Type} (E : GoTie.EncryptEnv P S ρ δ ω)
+    (d : δ) (rs : List ρ) (tape : Bytes) :
+    ∃ res, Extracted.age_Encrypt E.nilW (GoTie.tapeRead E.eRand) E.W E.mac E.marshalF E.write E.newWriter E.key d rs tape = .ok res ∧
+      match encryptInit P tape (rs.map E.recOf) E.hdrSegs (E.absD d) with
+      | (.ok (w, k, t'), d2) =>
+          res.1 = E.mkW k res.2.2.1 ∧ res.2.1 = none ∧ E.absD res.2.2.1 = d2 ∧ res.2.2.2 = t' ∧ w = AgeModel.Stream.Writer.new d2
+      | (.error e, d2) => GoTie.encErrRel E.eRand e res.2.1 ∧ E.absD res.2.2.1 = d2 :=
+  GoTie.encrypt_tie P E d rs tape
 
 end Tie.C11
 end AgeModel
